@@ -241,6 +241,40 @@ def run(tier):
             samples.append({"tokens": c["t"], "src": src, "expect_nf": nf, "observed": o})
 
     C.log("[C06] directed replay done at %.0fs" % (time.time() - t0))
+    # ---- indentation shapes: grammatical lines (`def a():` / `pass`) at every indentation width; the
+    # character-level rules (Lex.tla: a dedent must return to an open level) and the grammar decide
+    # accept / reject; printing an accepted module must round-trip like any other
+    gs = C.run_tlc("Gen_Lex", "Gen_Lex_gshape.cfg", name="c06_gshape", workers=8, timeout=3000, coverage=False)
+    shapes = [c for c in prints(gs.out, "L") if c["m"] == "gshape"]
+    if len(shapes) < 1000:
+        raise C.ToolError("vacuous: %d indentation shapes" % len(shapes))
+    SYMS = {"KIF": "if", "KELSE": "else", "KPASS": "pass", "KDEF": "def"}
+    srows = [{"id": "shape#%d" % i, "src": "".join(SYMS.get(x, x) for x in c["s"])} for i, c in enumerate(shapes)]
+    rc, souts, err = harness_cases(srows, wd, "shapes")
+    if rc != 0 and len(souts) < len(srows):
+        missing = [x for x in srows if x["id"] not in souts]
+        verdict.disagree({"kind": "panic", "form": "process_abort", "ops": [], "gen": "shape"}, {"case": missing[0], "stderr": err[-1500:]})
+    shape_stats = {"accept": 0, "reject": 0, "disagree": 0}
+    for i, c in enumerate(shapes):
+        o = souts.get("shape#%d" % i)
+        if o is None:
+            continue
+        shape_stats[c["p"]] += 1
+        st = o.get("st")
+        got = "panic" if st == "panic" else "accept" if st == "ok" else "reject"
+        if got != c["p"]:
+            shape_stats["disagree"] += 1
+            verdict.disagree({"kind": "panic" if got == "panic" else "accept_mismatch", "form": "indentation_shape", "ops": [], "gen": "shape",
+                              "expected": c["p"], "lex": c["st"], "why": c["why"]},
+                             {"gen": "shape", "src": srows[i]["src"], "expect": {"verdict": c["p"], "lex": c["st"], "why": c["why"]}, "observed": o})
+        elif got == "accept" and o.get("rt") not in (None, "ok"):
+            shape_stats["disagree"] += 1
+            verdict.disagree({"kind": "roundtrip", "form": "indentation_shape", "ops": [], "gen": "shape"},
+                             {"gen": "shape", "src": srows[i]["src"], "observed": o})
+    n_replayed += len(souts)
+    if not (shape_stats["accept"] and shape_stats["reject"]):
+        raise C.ToolError("vacuous indentation shapes: %s" % shape_stats)
+    C.log("[C06] %d indentation shapes (%s) at %.0fs" % (len(shapes), shape_stats, time.time() - t0))
     # ---- (ii): the whole sequence space, enumerated independently by the harness
     ap = os.path.join(wd, "alphabet.json")
     json.dump(alphabet, open(ap, "w"))
